@@ -120,7 +120,9 @@ def harness(g, chart, level, canary=False):
 
     def hook(kind, ident):
         if kind == 'action':
-            return "A(%d)" % ident + ("\nsend('b', k=%d)" % ident if ident == 0 else "\nnotify('note', k=%d)" % ident)
+            if ident == 0:    # a notify followed by a send in one fragment: their order must be kept
+                return "A(0)\nnotify('note', k=0)\nsend('b', k=0)\nnotify('note', k=9)"
+            return "A(%d)\nnotify('note', k=%d)" % (ident, ident)
         return None
     mon = Inst(g, chart, 'id', code_hook=hook, cache_key=('c10',), tag='mon')
     twin = Inst(g, chart, 'id', sc=(mon.sc, mon.trs, mon.cm), tag='twin')
